@@ -393,8 +393,7 @@ where
         }
 
         match self.get_data_type(from)? {
-            GarnishDataType::Invalid => todo!(),
-            GarnishDataType::Custom => todo!(),
+            t @ (GarnishDataType::Invalid | GarnishDataType::Custom) => Err(DataError::from(format!("No cast to CharList available for {:?}", t)))?,
             GarnishDataType::Unit => {
                 self.add_to_char_list('(')?;
                 self.add_to_char_list(')')?;
